@@ -151,14 +151,23 @@ Scenario gen_mix(vu::Rng& rng, const Knobs& k, const std::string& family) {
     for (int i = 0; i < k.inbound; ++i) {
         Action b; b.kind = Action::broker_publish; b.at = (vt)rng.range(0, k.span); b.qos = (int)rng.below(3); b.topic = "m" + std::to_string(i);
         b.payload = payload_for(rng, 2); b.retain = rng.chance(1, 6);
+        // the client announces no Maximum Packet Size and then refuses packets above its 64 KiB receive buffer (documented
+        // library behaviour, outside the 20 properties): the conformant broker of these workloads stays below it
+        if (b.payload.size() > 60000) b.payload.resize(60000);
         if (rng.chance(1, 3)) { ref::Gen g(rng); g.max_str = 30; b.props = g.props(ref::PUBLISH, -1, {0x23}); }
         sc.script.push_back(b);
     }
     // faults: byte offsets are drawn against a rough estimate of the traffic; misses simply do not fire
     int nf = (int)rng.below(k.faults_max + 1);
     for (int i = 0; i < nf; ++i) {
-        Fault f; f.kind = rng.pick(std::vector<Fault::Kind>{Fault::reset_c2b, Fault::reset_c2b, Fault::reset_b2c, Fault::reset_b2c, Fault::eof_b2c, Fault::write_fail_delivered});
+        Fault f; f.kind = rng.pick(std::vector<Fault::Kind>{Fault::reset_c2b, Fault::reset_c2b, Fault::reset_b2c, Fault::reset_b2c, Fault::eof_b2c, Fault::write_fail_delivered, Fault::write_stall});
         f.conn_ordinal = i; f.at = rng.range(0, 30 + 40 * npubs); f.ec = (int)rng.below(6);
+        if (f.kind == Fault::write_stall) {
+            // only the keep-alive read timeout (or a later read-side fault) gets the client out of a blocked write
+            if (f.at < 20) f.at += 20;   // after the handshake
+            sc.ccfg.keep_alive = (uint16_t)rng.range(1, 5);
+            if (rng.chance(1, 2)) { Fault g; g.kind = rng.chance(1, 2) ? Fault::reset_b2c : Fault::eof_b2c; g.conn_ordinal = i; g.at = f.at / 2 + 40; g.ec = (int)rng.below(6); sc.faults.push_back(g); }
+        }
         sc.faults.push_back(f);
     }
     int nb = (int)rng.below(k.bad_attempts_max + 1);
